@@ -370,7 +370,8 @@ class RFContext:
 
     def show_rf(self, r, limit=400):
         s = self.show_poly(r.n) if r.d == Poly.const(1) else f"({self.show_poly(r.n)}) / ({self.show_poly(r.d)})"
-        return s if len(s) <= limit else s[: limit - 3] + "..."
+        import os
+        return s if len(s) <= limit or os.environ.get("PRSA_SHOW_FULL") else s[: limit - 3] + "..."
 
     def opaque_atoms(self, r):
         """Opaque term atoms (not psum / fn) reachable from an RF, for vocabulary checks."""
